@@ -57,10 +57,15 @@ PoolsFromNodes(ND) ==
                              d \in DOMAIN ND[n] /\ ND[n][d].pool = a /\ ND[n][d].fmt = "reference"}
                 df == CHOOSE x \in defs : TRUE
             IN  [del |-> df[2], on |-> df[1], for |-> {x[1] : x \in refs}, det |-> ND[df[1]][df[2]].det]]
-PoolsRoundTrip(F) ==
+\* single: "none" | "first" | "last" - every node additionally carries a single-resource delegation of its own (id del0),
+\* listed before / after its pool entries: reading the pools back ignores it wherever it is listed
+WithSingle(ND, single) == IF single = "none" THEN ND
+                          ELSE [n \in DOMAIN ND |-> [d \in (DOMAIN ND[n]) \cup {"del0"} |->
+                                     IF d = "del0" THEN [fmt |-> "single", pool |-> "", det |-> "d2"] ELSE ND[n][d]]]
+PoolsRoundTrip(F, single) ==
     IF \E a \in DOMAIN F : ~ValidPool(F[a]) THEN R("PoolException", [k |-> "none"])
     ELSE IF ~Representable(F) THEN R(DErr, [k |-> "none"])
-    ELSE R("ok", [k |-> "pools", nodes |-> NodeDelegations(F), back |-> F])
+    ELSE R("ok", [k |-> "pools", nodes |-> WithSingle(NodeDelegations(F), single), back |-> F])
 
 \* pools and single-resource delegations written onto the elements of an aggregate model and read back from it:
 \* an element cannot carry its own delegation and a pool entry at once (refused, nothing written)
@@ -69,9 +74,13 @@ PoolsViaGraph(F, own) ==
     IF \E a \in DOMAIN F : ~ValidPool(F[a]) THEN R("PoolException", [k |-> "none"])
     ELSE IF ~Representable(F) THEN R(DErr, [k |-> "none"])
     ELSE IF own \cap NodesOf(F) # {} THEN R("PropertyGraphQueryException", [k |-> "none"])
-    ELSE LET ND == NodeDelegations(F) IN
-         R("ok", [k |-> "pools", back |-> F,
-                  nodes |-> [n \in NodesOf(F) \cup own |-> IF n \in own THEN [d \in {OwnDel} |-> [fmt |-> "single", pool |-> "", det |-> "d2"]] ELSE ND[n]]])
+    ELSE LET ND == NodeDelegations(F)
+             all == [n \in NodesOf(F) \cup own |-> IF n \in own THEN [d \in {OwnDel} |-> [fmt |-> "single", pool |-> "", det |-> "d2"]] ELSE ND[n]]
+             ids == UNION {DOMAIN all[n] : n \in DOMAIN all}
+         IN  R("ok", [k |-> "pools", back |-> F, nodes |-> all,
+                      \* regrouped by delegation id (one model per id): each holds exactly the elements with an entry of that id,
+                      \* each carrying that entry only - and nothing under the OTHER delegation type
+                      adms |-> [d \in ids |-> [n \in {x \in DOMAIN all : d \in DOMAIN all[x]} |-> all[n][d]]]])
 
 Apply(S, o) ==
     CASE o.op = "DelegRoundTrip"  -> RoundTrip(Fn(o.ds))
@@ -82,7 +91,8 @@ Apply(S, o) ==
       [] o.op = "MixedType"       -> R(DErr, [k |-> "none"])          \* label details on a capacity delegation / vice versa
       [] o.op = "DecodeMixedText" -> R("rejected", [k |-> "none"])    \* capacity text decoded as labels / vice versa
       [] o.op = "PoolsRoundTrip"  -> PoolsRoundTrip([a \in DOMAIN o.fam |-> [del |-> o.fam[a].del, on |-> o.fam[a].on,
-                                                                          for |-> ToSet(o.fam[a].for), det |-> o.fam[a].det]])
+                                                                          for |-> ToSet(o.fam[a].for), det |-> o.fam[a].det]],
+                                                    IF "single" \in DOMAIN o THEN o.single ELSE "none")
 
 \* design-level law (checked by TLC on every representable family): pools -> nodes -> pools = identity
 LawHolds(F) == (Representable(F) /\ \A a \in DOMAIN F : ValidPool(F[a])) => PoolsFromNodes(NodeDelegations(F)) = F
